@@ -507,7 +507,9 @@ def corpus(ctx):
         avg = fact != "iso"
         check_timeseries(ctx, cfg, 1, sol, 0, avg, data, std, dict(case, avg=avg), True)
         check_terminal(ctx, cfg, 1, sol, 0, 4, data[4], std[4], case)
-        check_to_derivative(ctx, cfg, 1, sol, 1, case)
+        for tci_ in (0, 1, 2):  # every coefficient index, every factorisation, in every run (a slip that is the identity for 0 and 1: C12-s11)
+            check_to_derivative(ctx, cfg, 1, sol, tci_, case)
+            check_terminal(ctx, cfg, 1, sol, tci_, 4, np.asarray(sol.u.mean[tci_], dtype=np.float64)[4] + 0.01, std[4], dict(case, tcoeff_index=tci_))
         ctx.case(dict(case, data=None))
     # (c) dense model, two dimensions, noise levels nine orders of magnitude apart within one time point (inside the
     # property's range [1e-6, 1e3]): the gain goes through a strongly graded innovation factor; no singular value of it
